@@ -13,7 +13,7 @@ CONSTANTS
   ChanNums = {16384}
   LifeReqs <- MCLifeAbsent
   Txids = {"t1"}
-  Pays = {"p", "stunlike", "chanlike", "zeros"}
+  Pays = {"p", "stunlike", "chanlike", "zeros", "cookie"}
   Lens <- MCLensMTU
   InboundMTU = 1600
   PermSeqs <- MCPermSeqs1
